@@ -24,6 +24,8 @@ inside a //@fn or //@frag block (terminated by //@end):
   (frag only)
   //@start <regex>             first line of the fragment (regex searched in the fn body)
   //@stop <regex>              last line of the fragment (searched after start)
+  //@start-after <regex>       the fragment starts on the line AFTER the matching line
+  //@stop-before <regex>       the fragment ends on the line BEFORE the matching line
   //@wrap                      following lines: wrapper fn header up to (excluding) '{'
   //@pre                       following lines: statements placed before the fragment
   //@post                      following lines: statements/expression placed after it
@@ -671,6 +673,12 @@ def assemble(template_path, repo):
                     d["start"] = arg
                 elif key == "stop":
                     d["stop"] = arg
+                elif key == "start-after":
+                    d["start"] = arg
+                    d["start_after"] = True
+                elif key == "stop-before":
+                    d["stop"] = arg
+                    d["stop_before"] = True
                 elif key == "subst":
                     a, _, b = arg.partition("=>")
                     d["substs"].append((a.strip(), b.strip()))
@@ -712,11 +720,22 @@ def assemble(template_path, repo):
             if not m1:
                 raise LostAnchor("%s: start anchor /%s/ not found" % (where, d["start"]))
             ls = body.rfind("\n", 0, m1.start()) + 1
-            m2 = re.compile(d["stop"], re.M).search(body, m1.start())
+            search_from = m1.start()
+            if d.get("start_after"):
+                nl = body.find("\n", m1.end())
+                if nl < 0:
+                    raise LostAnchor("%s: nothing after start anchor" % where)
+                ls = nl + 1
+                search_from = ls
+            m2 = re.compile(d["stop"], re.M).search(body, search_from)
             if not m2:
                 raise LostAnchor("%s: stop anchor /%s/ not found" % (where, d["stop"]))
             le = body.find("\n", m2.end())
             le = len(body) if le < 0 else le
+            if d.get("stop_before"):
+                le = body.rfind("\n", 0, m2.start())
+                if le < ls:
+                    raise LostAnchor("%s: stop anchor precedes start" % where)
             frag = body[ls:le]
             # the fragment must be delimiter-balanced
             ft = tokenize(frag)
